@@ -122,17 +122,6 @@ func init() {
 		}
 		return "ok " + showQR(q) + " | " + showGImage(img)
 	}
-	ops["qr.fmt0"] = func(a []string) string {
-		l, m, ok := qrcode.VerifDecodeFormat0(uint(atou64(a[0])))
-		if !ok {
-			return "ok none"
-		}
-		return fmt.Sprintf("ok %d %d", l, m)
-	}
-	ops["qr.fmt"] = func(a []string) string {
-		l, m, err := qrcode.VerifDecodeFormat(parseImage(a[0]))
-		return errOr(err, fmt.Sprintf("%d %d", l, m))
-	}
 	ops["qr.new"] = func(a []string) string {
 		var q *qrcode.QRCode
 		var err error
@@ -186,13 +175,6 @@ func init() {
 			return "err " + err.Error()
 		}
 		return "ok " + showMQ(q) + " | " + showGImage(img)
-	}
-	ops["mq.fmt"] = func(a []string) string {
-		v, l, m, ok := microqr.VerifDecodeFormat(uint(atou64(a[0])))
-		if !ok {
-			return "ok none"
-		}
-		return fmt.Sprintf("ok %d %d %d", v, l, m)
 	}
 	ops["mq.new"] = func(a []string) string {
 		var q *microqr.QRCode
@@ -256,17 +238,6 @@ func init() {
 			return "err " + err.Error()
 		}
 		return "ok " + showRM(q) + " | " + showGImage(img)
-	}
-	ops["rm.fmt0"] = func(a []string) string {
-		v, l, ok := rmqr.VerifDecodeFormat0(uint(atou64(a[0])))
-		if !ok {
-			return "ok none"
-		}
-		return fmt.Sprintf("ok %d %d", v, l)
-	}
-	ops["rm.fmt"] = func(a []string) string {
-		v, l, err := rmqr.VerifDecodeFormat(parseImage(a[0]))
-		return errOr(err, fmt.Sprintf("%d %d", v, l))
 	}
 	ops["rm.new"] = func(a []string) string {
 		var q *rmqr.QRCode
